@@ -81,6 +81,10 @@ SHADOW_SETS = [
     {"xs": "list"},
     {"n": "id"},
     {"n": "type", "a": "max"},
+    # arguments named like the loop variables of the generated comprehensions (which shadow them inside the comprehension only)
+    {"a": "x"},
+    {"a": "x", "b": "y"},
+    {"b": "x", "n": "y"},
 ]
 
 
@@ -337,7 +341,16 @@ class Gen:
     def all_expr(self, d: int) -> str:
         rng = self.rng
         k = rng.choice(["one", "filter", "two", "attr", "truthy", "truthy_get", "guard_inside", "guard_inside2", "star_inside", "dstar_inside",
-                        "star_comp_in_iter"])
+                        "star_comp_in_iter", "dependent_filters", "dependent_filters2", "filters_two_fors"])
+        if k == "dependent_filters":
+            # two filters on one ``for``: the second is only defined for the items the first lets through
+            return "all(x > {} for x in {} if x != 0 if 12 // x != {})".format(self.int_leaf(), self.list_expr(d + 1), self.int_leaf())
+        if k == "dependent_filters2":
+            return "all({o}.items[x] >= {i} for x in {xs} if 0 <= x if x < len({o}.items) if {o}.items[x] != {i2})".format(
+                o=self.n("o"), xs=self.list_expr(d + 1), i=self.int_leaf(), i2=self.int_leaf()) if self.env.can_use("len") else \
+                "all(x > {} for x in {} if x if 6 // x)".format(self.int_leaf(), self.list_expr(d + 1))
+        if k == "filters_two_fors":
+            return "all(x // y > {} for x in {} if x for y in {} if y if x % y == 0)".format(self.int_leaf(), self.n("xs"), self.list_expr(d + 1))
         if k == "star_inside" and self.has("star"):
             # starred / double-starred call arguments that depend on the loop variable
             return "all(total(*[x, {}]) > {} for x in {})".format(self.int_leaf(), self.int_leaf(), self.list_expr(d + 1))
